@@ -195,6 +195,10 @@ func registerIntrinsics(ex *Executor) {
 		st.GoOrder = args[0].(*smt.Term).IsTrue()
 		return nil, cNext
 	}
+	I["@verifMapOrder"] = func(ex *Executor, st *State, cc *CallCtx, args []Val) (Val, ctl) {
+		st.MapOrder = args[0].(*smt.Term).IsTrue()
+		return nil, cNext
+	}
 	I["@verifBackground"] = func(ex *Executor, st *State, cc *CallCtx, args []Val) (Val, ctl) {
 		return nil, cNext
 	}
